@@ -48,9 +48,12 @@ def analyse_variant(prop: str, overrides: dict, tier: str = "quick") -> tuple:
         return "error", str(e)
     except Exception as e:  # checker bug on a variant
         return "error", f"{type(e).__name__}: {e}"
-    from .report import VIOLATION, UNRECOGNISED
+    from .report import VIOLATION, UNRECOGNISED, split_known
 
-    if any(i.verdict == VIOLATION for i in rep.instances):
+    listed, unlisted = split_known(rep)
+    for v, _ in listed:
+        v.verdict = "KNOWN"
+    if unlisted:
         return "violation", rep
     if any(i.verdict == UNRECOGNISED for i in rep.instances) or any(f < m for _, f, m in rep.floors):
         return "error", rep
@@ -62,6 +65,10 @@ def main(argv: list) -> int:
         print("usage: check <ID>|all [--thorough] [--replay FILE]")
         return 2
     prop = argv[0].upper()
+    if prop == "SELFTEST":
+        from selftest import campaign
+
+        return campaign.main(argv[1:])
     tier = "thorough" if "--thorough" in argv or os.environ.get("VERIF_TIER") == "thorough" else "quick"
     try:
         seed = int(os.environ.get("VERIF_SEED", "0"))
